@@ -112,3 +112,10 @@ func (pool *TxPool) VerifSnapshot(addrs []common.Address) *VerifPoolSnapshot {
 func (pool *TxPool) VerifReset(oldHead, newHead *types.Header) {
 	pool.lockedReset(oldHead, newHead)
 }
+
+// VerifHeadEventsQueued returns the number of ChainHeadEvents posted to the pool's channel that TxPool.loop has not
+// yet taken.  loop handles one event at a time, so when a sentinel posted after an event has been taken, the event
+// before it has been processed completely (no timing assumption).
+func (pool *TxPool) VerifHeadEventsQueued() int {
+	return len(pool.chainHeadCh)
+}
